@@ -7,7 +7,7 @@ from . import common, genops
 from .common import viol
 
 ID = "C11"
-RUNS = {"quick": 160, "thorough": 12000}
+RUNS = {"quick": 160, "thorough": 4000}
 REAL = common.REAL
 SIMULATED = common.SIMULATED
 ASSUMPTIONS = [
